@@ -304,11 +304,27 @@ func (env *SpecEnv) ident(name string) *Value {
 		c := x.ctx.Const("spec$"+name, srt)
 		return buildValue(t, func(l Leaf) *Term { return c })
 	}
-	// Go package-level constants
+	// Go package-level constants and variables
 	if env.pkg != nil {
 		if o := env.pkg.Scope().Lookup(name); o != nil {
 			if c, ok := o.(*types.Const); ok {
 				return x.constValue(ssa.NewConst(c.Val(), c.Type()))
+			}
+			if fo, ok := o.(*types.Func); ok {
+				if sfn := x.prog.FuncValue(fo); sfn != nil {
+					return &Value{K: KFunc, T: fo.Type(), Fn: sfn, Term: x.fnRef(sfn)}
+				}
+			}
+			if gv, ok := o.(*types.Var); ok {
+				if sp := x.prog.Package(env.pkg); sp != nil {
+					if g, ok := sp.Members[gv.Name()].(*ssa.Global); ok {
+						ptr := &Pointer{Base: x.ctx.Const("global$"+sanitize(g.String()), RefSort), ObjT: gv.Type(), Global: g.String()}
+						if iv := x.globalInit(nil, env.cur, ptr, gv.Type()); iv != nil {
+							return iv
+						}
+						return x.load(env.cur, ptr, gv.Type())
+					}
+				}
 			}
 		}
 	}
@@ -735,10 +751,7 @@ func (env *SpecEnv) call(e *Expr) *Value {
 		if fn.Signature.Results().Len() == 1 {
 			resT = fn.Signature.Results().At(0).Type()
 		}
-		var ats []*Term
-		for _, a := range avs {
-			ats = append(ats, leafTerms(a)...)
-		}
+		ats := x.pureArgTerms(env.cur, avs)
 		i := 0
 		res := buildValue(resT, func(l Leaf) *Term {
 			t := x.ctx.App(fmt.Sprintf("f$%s$%d", sanitize(fnName), i), l.Sort, ats...)
@@ -781,6 +794,11 @@ func (env *SpecEnv) call(e *Expr) *Value {
 	case "seen":
 		n := mustInt(args[0])
 		return env.loopSeen(n)
+	case "strpos":
+		// byte position of the iterator of range-over-string loop N
+		n := mustInt(args[0])
+		v := env.loopSeen(n)
+		return scalar(tInt, v.Term)
 	case "called":
 		n := exprTypeName(args[0])
 		if args[0].Op == "str" {
